@@ -174,6 +174,10 @@ func (w *vWorld) applyCred(q *vReq, cred map[string]interface{}) {
 			cn = "notauto"
 		}
 		leaf := w.roleCert(cn, vNetblocks())
+		if variant == "inside_old" {
+			// minted a month ago with a year to live (automation certificates are long-lived): as good as a fresh one
+			leaf = w.agedRoleCert(cn, vNetblocks(), 30*24*time.Hour)
+		}
 		if variant == "loopback_xff" {
 			// netblocks without 127.0.0.0/8: a local proxy (or anything else on the host) is not inside
 			leaf = w.roleCert(cn, vNetblocks()[:1])
